@@ -5,17 +5,20 @@ WT="$1"; NAME="$2"
 OUT=/verif/seeded/$NAME
 mkdir -p "$OUT"
 cd "$WT" || exit 2
-git diff -- csvpath > "$OUT/patch.diff"
-cp seeded/demo.py "$OUT/demo.py"; cp seeded/notes.md "$OUT/notes.md" 2>/dev/null
-# move the worktree onto the current main, keeping the change
-git stash -q && git checkout -q --detach main && git stash pop -q || { echo "cannot rebase change onto main"; exit 2; }
+if [ ! -s "$OUT/patch.diff" ]; then git diff -- csvpath > "$OUT/patch.diff"; fi
+[ -f seeded/demo.py ] && cp seeded/demo.py "$OUT/demo.py"
+[ -f seeded/notes.md ] && cp seeded/notes.md "$OUT/notes.md"
+# put the worktree on the current main with exactly the patch applied
+git checkout -q -f --detach main && git apply "$OUT/patch.diff" || { echo "patch does not apply on main"; exit 2; }
+mkdir -p seeded && cp "$OUT/demo.py" seeded/demo.py
 /venv/bin/python seeded/demo.py > /tmp/seed_$NAME.with.log 2>&1; W=$?
-git stash -q
+git apply -R "$OUT/patch.diff"
 /venv/bin/python seeded/demo.py > /tmp/seed_$NAME.without.log 2>&1; WO=$?
-git stash pop -q
+git apply "$OUT/patch.diff"
 echo "demo with change exit=$W ; without change exit=$WO"
 rm -rf archive cache inputs logs/*.log 2>/dev/null
 /venv/bin/python -m pytest -q -p no:cacheprovider --timeout=900 --continue-on-collection-errors --junitxml=/tmp/seed_$NAME.junit.xml tests > /tmp/seed_$NAME.tests.log 2>&1
+git diff --quiet -- csvpath && echo "WARNING: no change applied during the suite run"
 /venv/bin/python - "$NAME" "$W" "$WO" <<'PY'
 import json, sys, subprocess, xml.etree.ElementTree as ET
 name, w, wo = sys.argv[1], int(sys.argv[2]), int(sys.argv[3])
